@@ -61,14 +61,92 @@ def plan_c14(K, ctx):
     }
 
 
+# ------------------------------------------------------------------------------------------------ C13
+F64_CLASSES = {   # concrete bit patterns per class (first = canonical representative)
+    "neg_inf": ["fff0000000000000"],
+    "neg": ["bff0000000000000", "8000000000000001", "bfe0000000000000", "ffefffffffffffff", "bc00000000000000"],
+    "neg_zero": ["8000000000000000"],
+    "pos_zero": ["0000000000000000"],
+    "subnormal": ["0000000000000001", "000fffffffffffff", "0000000000001000"],
+    "mid": ["3fe0000000000000", "3fd3333333333333", "3fefffffffffffff", "0010000000000000", "3fb999999999999a", "3feccccccccccccd"],
+    "one": ["3ff0000000000000"],
+    "one_plus": ["3ff0000000000001"],
+    "big": ["3ff8000000000000", "4000000000000000", "7fe1ccf385ebc8a0", "7fefffffffffffff", "3ff0000000000002"],
+    "pos_inf": ["7ff0000000000000"],
+    "nan": ["7ff8000000000000", "fff8000000000000", "7ff0000000000001"],
+}
+
+
+def plan_c13(K, ctx):
+    maxlen = 3 if ctx.tier == "quick" else 5
+    reps = 3 if ctx.tier == "quick" else 4
+    cfg = "SPECIFICATION Spec\n" + consts(MAXLEN=maxlen) + "INVARIANT Laws\nINVARIANT Emit\nCHECK_DEADLOCK FALSE\n"
+    rnd = random.Random(ctx.seed)
+
+    def expand(cmds, fmt):
+        # every class tuple is instantiated with `reps` choices of concrete floats (the first one canonical, the others seeded)
+        lines = open(cmds, encoding="utf-8").read().splitlines()
+        with open(cmds, "w", encoding="utf-8") as g:
+            for line in lines:
+                c = json.loads(line)
+                seen = set()
+                for r in range(reps):
+                    bits = [F64_CLASSES[k][0] if r == 0 else rnd.choice(F64_CLASSES[k]) for k in c["cls"]]
+                    if tuple(bits) in seen:
+                        continue
+                    seen.add(tuple(bits))
+                    g.write(json.dumps({"op": "numbers", "cls": c["cls"], "f": [{"bits": b} for b in bits]}) + "\n")
+
+    def nontrivial(c):
+        return len(c["cls"]) >= 1 and len(set(c["cls"])) >= 1
+
+    K.pipeline(ctx, "ascii", "c13", "MC_C13", cfg, "J_C13", nontrivial, extra_cmds=expand, shards=6 if ctx.tier == "thorough" else 1)
+    ctx.exhaustive = False
+    return {
+        "level": "exploration",
+        "note": f"all tuples of float classes of arity 0..{maxlen} (11 classes: -inf, negative, -0, +0, subnormal, (0,1), 1, 1+ulp, >1, +inf, NaN) enumerated "
+                f"by TLC with the constructor laws checked on the model; each tuple instantiated with up to {reps} concrete bit patterns per class "
+                "and run through try_from_floats / new_* / accessors / is_valid / try_validate / validate / root on the real code. "
+                "Partition-based: a defect that affects a single float inside a class is invisible.",
+        "rule": "one case = one tuple of concrete f64 bit patterns; non-trivial = arity >= 1; exhaustive over class tuples, sampled inside classes",
+        "assumptions": TRUSTED + ["the class of each concrete bit pattern in bin/plans.py F64_CLASSES is right"],
+    }
+
+
+# ------------------------------------------------------------------------------------------------ C01
+def nontrivial_value(c):
+    v = c.get("v", {})
+    if v.get("kind") != "term":
+        return True
+    return v["v"].get("k") not in ("Word", "Placeholder", "VariableIndependent", "VariableDependent", "VariableQuery", "Interval", "Operator")
+
+
+def plan_c01(K, ctx):
+    cfg = ("SPECIFICATION Spec\n" + consts(TIER=f'"{ctx.tier}"', SEEDS=16, SEED=ctx.seed) +
+           "INVARIANT RoundTrip\nINVARIANT Emit\nCHECK_DEADLOCK FALSE\n")
+    K.parallel([(lambda f=f: K.pipeline(ctx, f, "c01", "MC_C01", cfg, "J_C01", nontrivial_value, workers=5,
+                                        shards=5 if ctx.tier == "thorough" else 2)) for f in K.FORMATS])
+    ctx.exhaustive = ctx.tier == "thorough"
+    return {
+        "note": "EnumFormat.tla + EnumParser.tla (M1) on the dumped vocabulary: model round trip checked by TLC for every value of U1 (all 30 "
+                "constructors over a 4-atom pool, every image index), the atoms, images with late placeholders, a seeded sample (quick) or all "
+                "(thorough) of the depth-2 universe U2r and the sentence/task envelopes (4 punctuations x 9 stamps incl. isize extremes x truths x "
+                "budgets x 9 junction terms); each value formatted and re-parsed by the real code in all three formats, judged by J_C01.",
+        "rule": "one case = (value, format); non-trivial = a compound/statement term, or any sentence/task; distinct = distinct command JSON",
+        "assumptions": TRUSTED + ["names are drawn from a pool that contains no keyword of the format under test (adversarial names: separate stage)"],
+    }
+
+
 PLANS = {
+    "C01": plan_c01,
+    "C13": plan_c13,
     "C14": plan_c14,
     "C17": plan_c17,
 }
 
 
 # ------------------------------------------------------------------------------------------------ replay / selftest
-JUDGE_OF = {"C17": "J_C17", "C14": "J_C14"}
+JUDGE_OF = {"C01": "J_C01", "C17": "J_C17", "C14": "J_C14", "C13": "J_C13"}
 
 
 def replay(K, pid, path, seed):
